@@ -3,6 +3,7 @@ package props
 import (
 	"go/token"
 	"go/types"
+	"strings"
 
 	"godcheck/core"
 
@@ -13,51 +14,193 @@ import (
 // value resolver that sees through captured variables (closure free variables
 // are followed to the binding in the enclosing function).
 
+// curProg is the program the running rule table analyses (set by c07/c16 on entry).
+var curProg *core.Prog
+
+// pkgIndex records, for one SSA package, where closures are created and where
+// functions are statically called (call, go and defer), so that values can be
+// followed from a closure's free variable to its binding and from a helper's
+// parameter to the argument of its only call site.
+type pkgIndex struct {
+	funcs    []*ssa.Function
+	mcs      map[*ssa.Function][]*ssa.MakeClosure
+	sites    map[*ssa.Function][]ssa.CallInstruction
+	valueUse map[*ssa.Function]bool
+}
+
+var pkgIndexes = map[*ssa.Package]*pkgIndex{}
+
+// pkgFuncsAll lists the functions of package rel plus every closure they create
+// (closures of a helper inlined by the variant machinery live on in its callers).
+func pkgFuncsAll(p *core.Prog, rel string) []*ssa.Function {
+	out := append([]*ssa.Function(nil), p.PkgFuncs(rel)...)
+	seen := map[*ssa.Function]bool{}
+	for _, f := range out {
+		seen[f] = true
+	}
+	for i := 0; i < len(out); i++ {
+		for _, b := range out[i].Blocks {
+			for _, in := range b.Instrs {
+				if mc, ok := in.(*ssa.MakeClosure); ok {
+					if g, ok := mc.Fn.(*ssa.Function); ok && !seen[g] && g.Blocks != nil && (g.Synthetic == "" || strings.HasPrefix(g.Synthetic, "godcheck")) {
+						seen[g] = true
+						out = append(out, g)
+					}
+				}
+			}
+		}
+	}
+	return out
+}
+
+func indexOf(pkg *ssa.Package) *pkgIndex {
+	if pkg == nil {
+		return nil
+	}
+	if ix := pkgIndexes[pkg]; ix != nil {
+		return ix
+	}
+	ix := &pkgIndex{mcs: map[*ssa.Function][]*ssa.MakeClosure{}, sites: map[*ssa.Function][]ssa.CallInstruction{}, valueUse: map[*ssa.Function]bool{}}
+	if curProg != nil && curProg.SSA == pkg.Prog {
+		ix.funcs = pkgFuncsAll(curProg, strings.TrimPrefix(pkg.Pkg.Path(), core.Mod+"/"))
+	} else {
+		ix.funcs = core.SSAPkgFuncs(pkg.Prog, pkg)
+	}
+	for _, f := range ix.funcs {
+		for _, b := range f.Blocks {
+			for _, in := range b.Instrs {
+				var callee *ssa.Function
+				if c, ok := in.(ssa.CallInstruction); ok {
+					if callee = c.Common().StaticCallee(); callee != nil {
+						if _, viaMC := c.Common().Value.(*ssa.MakeClosure); !viaMC {
+							ix.sites[callee] = append(ix.sites[callee], c)
+						}
+					}
+				}
+				if mc, ok := in.(*ssa.MakeClosure); ok {
+					if g, ok := mc.Fn.(*ssa.Function); ok {
+						ix.mcs[g] = append(ix.mcs[g], mc)
+						if t := boundTarget(g); t != nil {
+							ix.valueUse[t] = true
+						}
+					}
+				}
+				for _, op := range in.Operands(nil) {
+					if fv, ok := (*op).(*ssa.Function); ok && fv != callee {
+						if _, isMC := in.(*ssa.MakeClosure); isMC {
+							continue
+						}
+						ix.valueUse[fv] = true
+						if t := boundTarget(fv); t != nil {
+							ix.valueUse[t] = true
+						}
+					}
+				}
+			}
+		}
+	}
+	pkgIndexes[pkg] = ix
+	return ix
+}
+
+// boundTarget returns the declared method behind a synthetic bound-method
+// closure / thunk (x.m used as a function value), or nil.
+func boundTarget(w *ssa.Function) *ssa.Function {
+	if w == nil || w.Synthetic == "" || w.Object() == nil {
+		return nil
+	}
+	if tf, ok := w.Object().(*types.Func); ok {
+		return w.Prog.FuncValue(tf)
+	}
+	return nil
+}
+
 // freeVarBinding returns the value bound to fv where its closure is created.
 func freeVarBinding(fv *ssa.FreeVar) ssa.Value {
 	fn := fv.Parent()
-	par := fn.Parent()
-	if par == nil {
-		return nil
-	}
 	idx := -1
 	for i, x := range fn.FreeVars {
 		if x == fv {
 			idx = i
 		}
 	}
-	if idx < 0 {
+	ix := indexOf(fn.Pkg)
+	if idx < 0 || ix == nil {
 		return nil
 	}
-	var found ssa.Value
-	n := 0
-	for _, b := range par.Blocks {
-		for _, in := range b.Instrs {
-			if mc, ok := in.(*ssa.MakeClosure); ok && mc.Fn == fn && idx < len(mc.Bindings) {
-				found = mc.Bindings[idx]
-				n++
-			}
+	ms := ix.mcs[fn]
+	if len(ms) != 1 || idx >= len(ms[0].Bindings) {
+		return nil
+	}
+	return ms[0].Bindings[idx]
+}
+
+// paramBinding returns the argument passed for parameter p when p belongs to an
+// unexported top-level function or method of the package that is never used as
+// a value and has exactly one static use (a call, `go` or `defer`): inside such
+// a helper the parameter denotes that argument.
+func paramBinding(p *ssa.Parameter) ssa.Value {
+	fn := p.Parent()
+	if fn == nil || fn.Parent() != nil || fn.Object() == nil || fn.Object().Exported() || fn.Synthetic != "" {
+		return nil
+	}
+	ix := indexOf(fn.Pkg)
+	if ix == nil || ix.valueUse[fn] || len(ix.sites[fn]) != 1 {
+		return nil
+	}
+	args := ix.sites[fn][0].Common().Args
+	for i, q := range fn.Params {
+		if q == p && i < len(args) {
+			return args[i]
 		}
 	}
-	if n != 1 {
+	return nil
+}
+
+// onlySite returns the single static use of an unexported top-level helper (nil otherwise).
+func onlySite(fn *ssa.Function) ssa.CallInstruction {
+	if fn == nil || fn.Parent() != nil || fn.Object() == nil || fn.Object().Exported() {
 		return nil
 	}
-	return found
+	ix := indexOf(fn.Pkg)
+	if ix == nil || ix.valueUse[fn] || len(ix.sites[fn]) != 1 {
+		return nil
+	}
+	return ix.sites[fn][0]
 }
 
 // cellOf normalises an address to the variable cell it denotes: an Alloc, or a
-// free variable resolved to the Alloc it captures (through any nesting depth).
+// free variable / helper parameter / loaded pointer resolved to the Alloc it
+// stands for (through any nesting depth).
 func cellOf(addr ssa.Value) ssa.Value {
-	for i := 0; i < 8; i++ {
-		fv, ok := addr.(*ssa.FreeVar)
-		if !ok {
+	for i := 0; i < 12; i++ {
+		switch x := addr.(type) {
+		case *ssa.FreeVar:
+			b := freeVarBinding(x)
+			if b == nil {
+				return addr
+			}
+			addr = b
+		case *ssa.Parameter:
+			b := paramBinding(x)
+			if b == nil {
+				return addr
+			}
+			addr = b
+		case *ssa.UnOp:
+			if x.Op != token.MUL {
+				return addr
+			}
+			r := resolveWith(x, true)
+			if r == ssa.Value(x) {
+				return addr
+			}
+			addr = r
+		case *ssa.ChangeType:
+			addr = x.X
+		default:
 			return addr
 		}
-		b := freeVarBinding(fv)
-		if b == nil {
-			return addr
-		}
-		addr = b
 	}
 	return addr
 }
@@ -97,17 +240,42 @@ func storesToCell(cell ssa.Value) []*ssa.Store {
 	return out
 }
 
-// resolve follows value-preserving conversions and loads of variable cells
-// with exactly one store (looking through closure capture) to the defining
-// value: a MakeChan, MakeClosure, Function, Parameter, Call, field load, ...
-func resolve(v ssa.Value) ssa.Value {
-	for i := 0; i < 16; i++ {
+// resolve follows value-preserving conversions, loads of variable cells with
+// exactly one store (looking through closure capture) and parameters of
+// single-use unexported helpers to the defining value: a MakeChan,
+// MakeClosure, Function, Parameter, Call, field load, ...
+func resolve(v ssa.Value) ssa.Value { return resolveWith(v, true) }
+
+// resolveLocal is resolve without following helper parameters to their arguments.
+func resolveLocal(v ssa.Value) ssa.Value { return resolveWith(v, false) }
+
+func resolveWith(v ssa.Value, params bool) ssa.Value {
+	for i := 0; i < 24; i++ {
 		v = core.Strip(v)
+		if pa, ok := v.(*ssa.Parameter); ok && params {
+			b := paramBinding(pa)
+			if b == nil {
+				return v
+			}
+			v = b
+			continue
+		}
 		u, ok := v.(*ssa.UnOp)
 		if !ok || u.Op != token.MUL {
 			return v
 		}
-		cell := cellOf(u.X)
+		var cell ssa.Value = u.X
+		if fv, isFV := cell.(*ssa.FreeVar); isFV {
+			// follow captures only (not parameters) to the variable cell
+			for j := 0; j < 8 && isFV; j++ {
+				b := freeVarBinding(fv)
+				if b == nil {
+					break
+				}
+				cell = b
+				fv, isFV = cell.(*ssa.FreeVar)
+			}
+		}
 		if _, isAlloc := cell.(*ssa.Alloc); !isAlloc {
 			return v
 		}
@@ -194,21 +362,87 @@ func isBuiltinCall(in ssa.Instruction, name string) bool {
 	return ok && b.Name() == name
 }
 
+// fnOfValue resolves a function value to the function it denotes when that is
+// statically known: a function, a closure, a variable holding exactly one local
+// closure, a helper parameter bound to one, or a bound method value (x.m).
+func fnOfValue(v ssa.Value) *ssa.Function {
+	switch x := resolve(v).(type) {
+	case *ssa.Function:
+		if t := boundTarget(x); t != nil {
+			return t
+		}
+		return x
+	case *ssa.MakeClosure:
+		g := x.Fn.(*ssa.Function)
+		if t := boundTarget(g); t != nil {
+			return t
+		}
+		return g
+	}
+	return nil
+}
+
 // calleeFn resolves the function run by a call/defer/go instruction when it is
-// statically known: a static callee, an immediately applied closure, or a
-// function variable holding exactly one local closure.
+// statically known (see fnOfValue).
 func calleeFn(c ssa.CallInstruction) *ssa.Function {
 	cc := c.Common()
 	if cc.IsInvoke() {
 		return nil
 	}
-	switch x := resolve(cc.Value).(type) {
-	case *ssa.Function:
-		return x
-	case *ssa.MakeClosure:
-		return x.Fn.(*ssa.Function)
+	return fnOfValue(cc.Value)
+}
+
+// deferSiteOf returns the function that defers f and the defer instruction:
+// f is a closure deferred where it is created, or an unexported helper whose
+// only use is a `defer f(...)`.
+func deferSiteOf(f *ssa.Function) (*ssa.Function, ssa.Instruction) {
+	ix := indexOf(f.Pkg)
+	if ix == nil {
+		return nil, nil
 	}
-	return nil
+	if ms := ix.mcs[f]; len(ms) == 1 && ms[0].Referrers() != nil {
+		for _, r := range *ms[0].Referrers() {
+			if d, ok := r.(*ssa.Defer); ok && d.Call.Value == ssa.Value(ms[0]) {
+				return d.Parent(), d
+			}
+		}
+		// stored in a variable and deferred through it
+		for _, g := range ix.funcs {
+			for _, b := range g.Blocks {
+				for _, in := range b.Instrs {
+					if d, ok := in.(*ssa.Defer); ok && !d.Call.IsInvoke() && fnOfValue(d.Call.Value) == f {
+						return g, d
+					}
+				}
+			}
+		}
+		return nil, nil
+	}
+	if s := onlySite(f); s != nil {
+		if d, ok := s.(*ssa.Defer); ok {
+			return d.Parent(), d
+		}
+	}
+	return nil, nil
+}
+
+// runViaOnce reports whether f is run as the argument of a sync.Once.Do call, and returns those calls.
+func runViaOnce(f *ssa.Function) []ssa.CallInstruction {
+	ix := indexOf(f.Pkg)
+	if ix == nil {
+		return nil
+	}
+	var out []ssa.CallInstruction
+	isDo := core.CallTo("(*sync.Once).Do")
+	for _, g := range ix.funcs {
+		for _, c := range core.Calls(g, isDo) {
+			a := c.Common().Args
+			if len(a) > 0 && fnOfValue(a[len(a)-1]) == f {
+				out = append(out, c)
+			}
+		}
+	}
+	return out
 }
 
 // k10 analyses one package.
@@ -430,4 +664,41 @@ func isRecvOn(id string) func(ssa.Instruction) bool {
 		u, ok := in.(*ssa.UnOp)
 		return ok && u.Op == token.ARROW && chanID(u.X) == id
 	}
+}
+
+// phiValuesFrom lists the values v can take on paths that start with one of the
+// given edges: a φ is narrowed to the incoming edges such a path can arrive
+// through (recursively); any other value is returned as is.
+func phiValuesFrom(v ssa.Value, start []core.Edge) []ssa.Value {
+	seen := map[ssa.Value]bool{}
+	var out []ssa.Value
+	var walk func(v ssa.Value)
+	walk = func(v ssa.Value) {
+		if seen[v] {
+			return
+		}
+		seen[v] = true
+		ph, ok := v.(*ssa.Phi)
+		if !ok {
+			out = append(out, v)
+			return
+		}
+		for i, e := range ph.Edges {
+			pred := ph.Block().Preds[i]
+			via := false
+			for _, s := range start {
+				if s.From == pred && s.To == ph.Block() {
+					via = true
+				}
+			}
+			if !via && len(pred.Instrs) > 0 {
+				_, via = core.Reach(core.Q{From: heads(start), Target: core.Is(pred.Instrs[len(pred.Instrs)-1])})
+			}
+			if via {
+				walk(e)
+			}
+		}
+	}
+	walk(v)
+	return out
 }
